@@ -710,6 +710,14 @@ func (state *RuntimeState) GetSigned(username string,
 		logger.Debugf(2, "%s for %s", err, username)
 		return false, "", errors.New("inconsistent data coming from DB")
 	}
+	// The username, type and expiration_epoch columns used by the query are
+	// not signed: only what is inside the verified JWS can be trusted.
+	if storageJWT.DataType != dataType {
+		return false, "", errors.New("inconsistent data type coming from DB")
+	}
+	if storageJWT.Expiration < time.Now().Unix() {
+		return false, "", errors.New("expired signed data coming from DB")
+	}
 	return true, storageJWT.Data, nil
 }
 
